@@ -128,6 +128,31 @@ def stepD (d : Driver) (s : St) (w : List String) : St × String :=
       | .ok, some fl => (s', s!"ok {(flagWord fl (keepCustom Gen.OpenFlags.customMasks custom)) % 4}")
       | o, _ => (s', showOut o)
     | _, _, _ => (s, "bad-op")
+  | ["hread", h, pos, cap] =>
+    -- `read_at(Vec::with_capacity(cap), pos)` with a huge capacity: `ok N LEN HEX(first N bytes)`
+    match h.toNat?, pos.toNat?, cap.toNat?, lenOf .ReadAt d with
+    | some h, some pos, some cap, some lk =>
+      match lookup s.handles h with
+      | none => (s, "nohandle")
+      | some hd =>
+        match readView d s hd pos (lenHanded lk cap) false with
+        | .error e => (s, s!"err {e}")
+        | .ok (f, p, adv) =>
+          let data := hugeRead lk cap (f.drop p)
+          (advancePos s h hd adv data.length, s!"ok {data.length} {data.length} {hexOf data}")
+    | _, _, _, _ => (s, "bad-op")
+  | ["hpread", p, cap] =>
+    match p.toNat?, cap.toNat?, lenOf .Read d with
+    | some p, some cap, some lk =>
+      match lookup s.pipes p with
+      | none => (s, "nohandle")
+      | some pp =>
+        if !pp.rOpen then (s, "closed") else
+        if pp.buf.isEmpty ∧ (pp.wOpen ∨ pp.fifo) then (s, "wouldblock") else
+        let data := hugeRead lk cap pp.buf
+        ({ s with pipes := insert s.pipes p { pp with buf := pp.buf.drop data.length } },
+          s!"ok {data.length} {data.length} {hexOf data}")
+    | _, _, _ => (s, "bad-op")
   | ["close", h] =>
     match h.toNat? with
     | some h =>
